@@ -11,6 +11,42 @@ def straight_line(c, a, b):
     return sl(c, a, b)
 
 
+def reach_table(c, node, atoms: dict, f=None):
+    """R-FINITE: under which truth assignments of the named atoms is `node`
+    reached?  atoms: {name: pattern}.  Returns {assignment tuple (in the
+    order of atoms): bool}, or None when some path condition of the site
+    mentions anything else (then the site is not a finite decision over the
+    atoms)."""
+    import itertools
+    from sa.pat import R
+    names = list(atoms)
+    facts = c.facts(node, expand=False)
+    env = c.env(node)
+
+    def ev(t, val):
+        if t[0] == 'atom':
+            if isinstance(t[1], ast.Constant):
+                return bool(t[1].value) == t[2]
+            for nm in names:
+                env.binds.clear()
+                if R(atoms[nm]).implied_by(('atom', t[1], True), env):
+                    return val[nm] == t[2]
+                env.binds.clear()
+                if R(atoms[nm]).implied_by(('atom', t[1], False), env):
+                    return val[nm] != t[2]
+            raise KeyError(norm(t[1]))
+        vals = [ev(m, val) for m in t[1]]
+        return all(vals) if t[0] == 'and' else any(vals)
+    out = {}
+    try:
+        for combo in itertools.product([False, True], repeat=len(names)):
+            val = dict(zip(names, combo))
+            out[combo] = all(ev(t, val) for t in facts)
+    except KeyError:
+        return None
+    return out
+
+
 def followed_by(c, stmt, kind) -> bool:
     """In stmt's own block, a statement of `kind` (ast.Break / ast.Continue /
     ast.Return ...) follows it with only straight-line statements (no
@@ -144,14 +180,18 @@ def prereq_dedup_rules(c, P):
          '`FAM:succeed-all => t` and `FAM:succeed-any => t`) collide and one '
          'silently replaces the other')
     ap = c.func('task_state', 'TaskState._add_prerequisites')
-    keyed = [s for s in c.idx.walk(ap.node) if isinstance(s, ast.Assign)
+    # (whatever the prerequisite variable is called; new private helpers
+    # of the function are searched with it)
+    keyed = [s for root in c.scope_nodes(ap) for s in c.idx.walk(root)
+             if isinstance(s, ast.Assign)
              and isinstance(s.targets[0], ast.Subscript)
-             and norm(s.targets[0].slice) == 'cpre.instantaneous_hash()']
+             and norm(s.targets[0].slice).endswith('.instantaneous_hash()')]
     c.floor(f'{P}.prereq-dedup', 'prerequisites keyed by '
             'instantaneous_hash()', len(keyed), 2)
     for s in keyed:
+        var = norm(s.targets[0].slice)[:-len('.instantaneous_hash()')]
         c.ob(f'{P}.prereq-dedup', c.key(s, ap) + ' stores the prerequisite',
-             norm(s.value) == 'cpre', c.where(s, ap), '')
+             norm(s.value) == var, c.where(s, ap), '')
     # the expression is set before the key is taken
     gp = c.func('task_trigger', 'Dependency.get_prerequisite')
     rr = [r for r in c.idx.walk(gp.node) if isinstance(r, ast.Return)]
